@@ -18,7 +18,7 @@ $(GEN)/stamp: tools/gen_shapes.py
 	@mkdir -p $(GEN)
 	python3 tools/gen_shapes.py $(GEN) > /dev/null
 	@touch $@
-$(SHAPE_SRCS): $(GEN)/stamp
+$(SHAPE_SRCS) $(GEN)/wide.cpp: $(GEN)/stamp
 
 $(B)/H/%.o: $(GEN)/%.cpp $(HDRS) $(GEN)/stamp
 	@mkdir -p $(B)/H
